@@ -206,8 +206,8 @@ truthful values for batches of unrelated locations.) -/
 theorem C09_truthful_needs_unrelated :
     ∃ (root r' : T) (pairs : List (Path × T)) (ups : List (Update × Path)),
       writeAll root [] pairs [] = some (r', ups) ∧ ∃ x ∈ ups, getAt root x.1.path ≠ x.1.old := by
-  refine ⟨.node ⟨1, false, none⟩ .dict [],
-    _, [([Key.s "n"], .node ⟨0, false, none⟩ .dict [(Key.s "k", .leaf (.int 0))]), ([Key.s "n", Key.s "k"], .leaf (.int 1))],
+  refine ⟨.node { id := 1, sub := false, cache := none } .dict [],
+    _, [([Key.s "n"], .node { id := 0, sub := false, cache := none } .dict [(Key.s "k", .leaf (.int 0))]), ([Key.s "n", Key.s "k"], .leaf (.int 1))],
     _, rfl, ?_⟩
   refine ⟨_, List.mem_cons_of_mem _ (List.mem_singleton.2 rfl), ?_⟩
   simp [getAt, child, lookup]
@@ -495,9 +495,11 @@ theorem C09_fresh (n : Bool) (root : T) (recv : Path) (op : Op) (hf : Fresh root
 /-- A read at any node of a fresh tree answers exactly what a fresh computation on the current
 contents of that node gives (whether it comes from the node's memo or is recomputed from the
 children's answers), and the tree — with whatever the read memoised in the subtree — stays fresh. -/
-theorem C09_read (root : T) (p : Path) (hf : Fresh root) :
-    (readAt root p).2 = (getAt root p).map derive ∧ Fresh (readAt root p).1 :=
-  readAt_spec root p hf
+theorem C09_read (root : T) (p : Path) (f : Facts) (hf : Fresh root) :
+    (readAt root p f).2 = (getAt root p).map (fun n =>
+        (if f.nd then derive n else [], if f.miss then deriveMiss n else [])) ∧
+      Fresh (readAt root p f).1 :=
+  readAt_spec root p f hf
 
 /-- FRESHNESS over histories that interleave calls (notified or silent, at any depth) with reads at
 chosen nodes: the tree is fresh after every history … -/
@@ -507,34 +509,51 @@ theorem C09_fresh_history : (hs : List HStep) → (root : T) → Fresh root → 
   | .call recv n op :: rest, root, hf, hv =>
     C09_fresh_history rest _ (C09_fresh n root recv op hf (hv (.call recv n op) (by simp)))
       (fun s hs => hv s (List.mem_cons_of_mem _ hs))
-  | .read p :: rest, root, hf, hv =>
-    C09_fresh_history rest _ (readAt_spec root p hf).2 (fun s hs => hv s (List.mem_cons_of_mem _ hs))
+  | .read p f :: rest, root, hf, hv =>
+    C09_fresh_history rest _ (readAt_spec root p f hf).2 (fun s hs => hv s (List.mem_cons_of_mem _ hs))
 
 /-- … hence a read made at any node after any such history answers the fresh computation on the
 contents of that moment — whichever nodes were read (memoised) before and whichever were not. -/
-theorem C09_read_after_history (hs : List HStep) (root : T) (p : Path) (hf : Fresh root)
+theorem C09_read_after_history (hs : List HStep) (root : T) (p : Path) (f : Facts) (hf : Fresh root)
     (hv : ∀ s ∈ hs, s.Admissible OpFresh) :
-    (readAt (runH root hs) p).2 = (getAt (runH root hs) p).map derive :=
-  (readAt_spec _ p (C09_fresh_history hs root hf hv)).1
+    (readAt (runH root hs) p f).2 = (getAt (runH root hs) p).map (fun n =>
+        (if f.nd then derive n else [], if f.miss then deriveMiss n else [])) :=
+  (readAt_spec _ p f (C09_fresh_history hs root hf hv)).1
 
 /-- A root dict whose cache is filled, holding one leaf. -/
 def exRoot : T :=
-  .node { id := 1, sub := true, cache := some [([Key.s "k"], Atom.int 1)] } .dict [(Key.s "k", .leaf (.int 1))]
+  .node { id := 1, sub := true, cache := some [([Key.s "k"], Val.atom (Atom.int 1))] } .dict [(Key.s "k", .leaf (.int 1))]
 
 /-- Why the invalidation matters (the state of the code before the fixes): a write that does not
 reset the chain leaves the memoised value of the container stale. -/
 theorem C09_stale_without_invalidation :
     ∃ r u, writeAt exRoot [] [] (Key.s "k") (some (.leaf (.int 2))) = some (r, some u) ∧ ¬ Fresh r := by
   refine ⟨_, _, rfl, ?_⟩
-  simp [Fresh, FreshItems, deriveItems, setKv]
+  simp [Fresh, FreshItems, derive, T.sv, T.svItems, deriveS, deriveItemsS, setKv]
 
 /-! Non-vacuity -/
 example : WFK exRoot := by
   simp [WFK, exRoot, KeysNodup, KeysNodupItems, ListIndexed, ListIndexedItems]
 example : Unrelated [Key.s "a", Key.i 0] [Key.s "b"] := by simp [Unrelated]
-example : Fresh exRoot := by simp [exRoot, Fresh, FreshItems, deriveItems]
+example : Fresh exRoot := by simp [exRoot, Fresh, FreshItems, derive, T.sv, T.svItems, deriveS, deriveItemsS]
 example : WF exRoot := by simp [WF, exRoot, KeysNodup, KeysNodupItems, allSubs, allSubsItems]
 example : (step exRoot [] true (.setKey (Key.s "k") (.leaf (.int 2)))).events.length = 1 := by
   decide
+
+/-- A typed tree: an object of a class with the fields `k` (default 1) and `d` (a schema-bound Dict
+with default `{u: 2}`), holding `k = 1`, `d = {u: 5}`: `sym_nondefault()` is `{d.u: 5}`. -/
+def exTyped : T :=
+  .node { id := 1, sub := false, cache := none, cls := 7,
+          sch := some [(Key.s "k", some (.atom (.int 1))),
+                       (Key.s "d", some (.node .dict 0 [(Key.s "u", .atom (.int 2))]))] } .obj
+    [(Key.s "k", .leaf (.int 1)),
+     (Key.s "d", .node { id := 2, sub := false, cache := none, sch := some [(Key.s "u", some (.atom (.int 2)))] } .dict
+        [(Key.s "u", .leaf (.int 5))])]
+
+example : derive exTyped = [([Key.s "d", Key.s "u"], .atom (.int 5))] := by rfl
+/-- the read memoises at the object only: the Dict between it and the leaf memoises nothing. -/
+example : (match (readAt exTyped [] ⟨true, false⟩).1 with
+    | .node m _ [_, (_, .node m2 _ _)] => m.cache.isSome && m2.cache.isNone
+    | _ => false) = true := by decide
 
 end Pg.C09
